@@ -217,6 +217,47 @@ def c163(ctx):
               "INTEGER_TAG_MIN..=INTEGER_TAG_MAX spans exactly the union (contiguous)", "INTEGER_TAG_MIN/MAX do not span exactly the tag ranges: %s" % v)
     ctx.check(R, "tuple_key2", "below-escape", max(union) < 0x80 and min(union) > 0x01, "all tags are below 0x80 and above the 0x00/0x01 escape bytes",
               "a tag collides with the escape bytes or the high bit: %s" % v)
+    # the decoders' tag -> payload-width functions admit exactly such a nine-tag family: the two ends of the range a tag is tested against
+    # (in the function, or handed to a helper that tests `(first..=last).contains(&tag)`) are at most 8 apart.  decode_big_endian_payload
+    # copies the payload into an 8-byte array on the strength of that (its debug_assert is the only other guard).
+    nlen = 0
+    for name in ("unsigned_len", "signed_negative_len", "signed_nonnegative_len"):
+        f = ctx.fn(R, "tuple_key2::" + name)
+        if not f:
+            continue
+        pairs = []
+
+        def cval(fn, o):
+            vs = [x.get("v") for x in P.origins(fn, o) if x["k"] == "const"]
+            return vs[0] if len(vs) == 1 and len(P.origins(fn, o)) == 1 else None
+        for pt in P.call_points(f, r"RangeInclusive.*::new$"):
+            t = P.term_at(f, pt)
+            pairs.append((cval(f, t["args"][0]), cval(f, t["args"][1])))
+        # `(A..=B).contains(&tag)` with constant ends: the range is a promoted constant whose two ends the extractor evaluated
+        for pt in P.call_points(f, r"RangeInclusive.*::contains$"):
+            for x in P.origins(f, P.term_at(f, pt)["args"][0]):
+                if x["k"] == "const" and x.get("promoted") and len(x.get("pvals") or []) == 2:
+                    pairs.append(tuple(x["pvals"]))
+        for b, t in f.calls():
+            for k_ in ctx.prog.targets(t):
+                g = ctx.prog.fns.get(k_)
+                if g is None or g.crate != "tuple_key2" or g is f:
+                    continue
+                for pt in P.call_points(g, r"RangeInclusive.*::new$"):
+                    gt = P.term_at(g, pt)
+                    ends = []
+                    for a in gt["args"][:2]:
+                        ps = [x["i"] for x in P.origins(g, a) if x["k"] == "param"]
+                        ends.append(cval(f, t["args"][ps[0] - 1]) if len(ps) == 1 and ps[0] - 1 < len(t["args"]) else cval(g, a))
+                    pairs.append(tuple(ends))
+        nlen += len(pairs)
+        for lo, hi in pairs:
+            ctx.check(R, f, "decoder-family-width", lo is not None and hi is not None and 0 <= hi - lo <= 8,
+                      "%s accepts tags %s..=%s: payload widths 0..=%s" % (name, lo, hi, None if lo is None or hi is None else hi - lo),
+                      "%s accepts a tag range that is not a constant family of at most nine tags (%s..=%s): a tag beyond the family decodes to a payload "
+                      "of more than 8 bytes, which decode_big_endian_payload copies into an 8-byte array -- a slice-index panic on foreign or damaged "
+                      "keys" % (name, lo, hi))
+    ctx.floor(R, "tag ranges tested by the integer width decoders", nlen, 3)
     for name in ("is_integer_tag", "is_unit_tag", "is_tag"):
         f = ctx.fn(R, "tuple_key2::" + name)
         if f:
